@@ -109,7 +109,16 @@ def spectra_equal(a, b):
 def case_schedule(col, p):
     kind, W, J = p['cache'], p['W'], p['J']
     fail_idx = tuple(p.get('fail', ()))
+    die_idx = tuple(p.get('die', ()))
     njobs = J if kind == '1d' else J * J
+    fatal = None
+    if die_idx:
+        # hard death of the worker that dequeues job k (work items are (ii, gamma) / (ii, jj, gamma1, gamma2))
+        def fatal(item):
+            if not isinstance(item, tuple):
+                return False
+            k = item[0] if kind == '1d' else item[0] * J + item[1]
+            return k in die_idx
     counter = Counter()
     # reference: single process
     ref_counter = Counter()
@@ -131,6 +140,14 @@ def case_schedule(col, p):
             key = 'deadlock' if isinstance(val, sched.Deadlock) else 'livelock'
             outcomes.add(key)
             col.violation('C17:Cache%s:_multiple_processes:%s' % (kind.upper(), key), dict(info, schedule=choices), str(val)[:300])
+            return
+        if die_idx:
+            if status == 'ok':
+                outcomes.add('returned')
+                col.violation('C17:Cache%s:dead_worker_absorbed' % kind.upper(), dict(info, schedule=choices),
+                              'constructor returned a cache although the worker holding job(s) %s died; holes=%s' % (list(die_idx), _holes(val)))
+            else:
+                outcomes.add('raised:' + type(val).__name__)
             return
         if fail_idx:
             if status == 'ok':
@@ -156,14 +173,14 @@ def case_schedule(col, p):
 
     mode = p['mode']
     if mode == 'stateful':
-        st = sched.explore(body, check, preemption_bound=None, stateful=True, max_executions=p.get('cap'))
+        st = sched.explore(body, check, preemption_bound=None, stateful=True, max_executions=p.get('cap'), fatal=fatal)
     else:
-        st = sched.explore(body, check, preemption_bound=p['bound'], stateful=False, max_executions=p.get('cap'))
+        st = sched.explore(body, check, preemption_bound=p['bound'], stateful=False, max_executions=p.get('cap'), fatal=fatal)
     col.tick(states=st['states'], traces=st['executions'], executions=st['executions'])
     if st['capped']:
         col.tick(schedule_caps_hit=1)
     col.distinct('outcomes_' + '_'.join(map(str, (kind, W, J, mode))), tuple(sorted(outcomes)))
-    col.distinct('nontrivial', ('schedule', kind, W, J, fail_idx, mode, p.get('bound')))
+    col.distinct('nontrivial', ('schedule', kind, W, J, fail_idx, die_idx, mode, p.get('bound')))
     col.observe('executions_%s_W%d_J%d_%s' % (kind, W, J, mode), st['executions'])
 
 
@@ -524,6 +541,47 @@ def case_mixture(col, p):
             ex = (1 - p2d) * np.asarray(f1, dtype=float) + p2d * np.asarray(f2, dtype=float)
             if not np.allclose(np.asarray(got, dtype=float), ex, rtol=1e-12, equal_nan=True):
                 col.violation('C17:%s:weights' % fn_name, dict(p, p2d=p2d, rho=rho, theta=theta), '')
+    # Vourlaki et al. mixture: six components (both negative equal / independent; positive in one, the other gamma-distributed; both positive)
+    from dadi.DFE import Vourlaki2022
+    import scipy.integrate
+    gpos = 4.0
+    gam = np.asarray(s2.gammas, dtype=float)
+    ipos = int(np.where(gam == gpos)[0][0])
+    nneg = len(s2.neg_gammas)
+    neg = np.asarray(s2.neg_gammas, dtype=float)
+    S2 = np.asarray(s2.spectra, dtype=float)
+
+    def tail_mix(rows, alpha, beta):
+        # rows[k] = cached spectrum with the negative population at neg[k]; trapezoid over the cached grid + tails at the ends
+        w = np.array([PDFs.gamma(-g, [alpha, beta]) for g in neg])
+        out = np.zeros_like(rows[0])
+        for k in range(nneg - 1):
+            out = out + 0.5 * (neg[k + 1] - neg[k]) * (w[k] * rows[k] + w[k + 1] * rows[k + 1])
+        w_neu = scipy.integrate.quad(PDFs.gamma, 0, -neg[-1], args=[alpha, beta])[0]
+        w_del = scipy.integrate.quad(PDFs.gamma, -neg[0], np.inf, args=[alpha, beta])[0]
+        return out + rows[0] * w_del + rows[-1] * w_neu
+    for alpha, beta_ in ((0.2, 10.0), (1.5, 2.0)):
+        comp = {
+            'm5': np.asarray(s1.integrate([alpha, beta_], None, PDFs.gamma, 1, None), dtype=float),
+            'm6': np.asarray(s2.integrate([alpha, beta_], None, PDFs.biv_ind_gamma, 1, None, exterior_int=True), dtype=float),
+            'm2': S2[ipos, ipos],
+            'm4': tail_mix([S2[ipos, k] for k in range(nneg)], alpha, beta_),     # population 1 positive, population 2 negative
+            'm7': tail_mix([S2[k, ipos] for k in range(nneg)], alpha, beta_),     # population 2 positive, population 1 negative
+        }
+        for w, ch, cp, theta in itertools.product((0.0, 0.3, 1.0), (0.0, 0.5, 1.0), (0.0, 0.4, 1.0), (1.0, 2.0)):
+            pr = [alpha, beta_, w, gpos, ch, cp]
+            try:
+                got = Vourlaki2022.Vourlaki_mixture(pr, None, s1, s2, theta, None)
+            except Exception as e:
+                col.violation('C17:Vourlaki_mixture:raises', dict(p, params=pr, theta=theta), '%s: %s' % (type(e).__name__, e))
+                continue
+            col.tick(transitions=1)
+            n += 1
+            ex = theta * (comp['m5'] * (1 - w) * (1 - ch) + comp['m6'] * (1 - w) * ch * (1 - cp) + comp['m7'] * (1 - w) * ch * cp
+                          + comp['m2'] * w * (1 - ch) + comp['m2'] * w * ch * cp + comp['m4'] * w * ch * (1 - cp))
+            if not np.allclose(np.asarray(got, dtype=float), ex, rtol=1e-10, atol=1e-13 * float(np.abs(ex).max())):
+                col.violation('C17:Vourlaki_mixture:weights', dict(p, params=pr, theta=theta),
+                              {'maxrel': float(np.abs(np.asarray(got, dtype=float) - ex).max() / np.abs(ex).max())})
     col.tick(states=n, traces=n)
     col.distinct('nontrivial', ('mixture',))
 
@@ -607,6 +665,12 @@ def run(ctx):
                 cases.append({'kind': 'schedule', 'cache': '1d', 'W': W, 'J': J, 'mode': 'stateful', 'fail': list(fail)})
     for fail in ([0], [3], [1, 2]):
         cases.append({'kind': 'schedule', 'cache': '2d', 'W': 2, 'J': 2, 'mode': 'stateful', 'fail': fail})
+    # hard death (no exception raised) of the worker holding one job; at least one worker survives
+    for W, J in [(2, 2), (2, 3), (3, 2)] + ([] if q else [(3, 3), (2, 4), (4, 3)]):
+        for k in range(J):
+            cases.append({'kind': 'schedule', 'cache': '1d', 'W': W, 'J': J, 'mode': 'stateful', 'die': [k]})
+    for k in range(4):
+        cases.append({'kind': 'schedule', 'cache': '2d', 'W': 2, 'J': 2, 'mode': 'stateful', 'die': [k]})
     cases.append({'kind': 'real', 'cache': '1d', 'W': 3, 'J': 5})
     cases.append({'kind': 'real', 'cache': '2d', 'W': 2, 'J': 3})
     # M
